@@ -5,7 +5,7 @@
 # (71 pass, functions::test_to_serde_json fails). Prints one verdict line.
 set -u
 P="$(readlink -f "$1")"; D="$(readlink -f "$2")"
-S=/tmp/cs
+S=${CS_DIR:-/tmp/cs}
 mkdir -p $S; exec 9>$S/.lock; flock 9
 rm -rf $S/repo; mkdir -p $S/repo
 git -C /repo archive HEAD | tar -x -C $S/repo
